@@ -88,3 +88,52 @@ Theorem C07_model_refs_resolve : forall w0 h,
       get_back (fst x') (hp_back p) <> None.
 Proof. exact model_refs_resolve. Qed.
 Print Assumptions C07_model_refs_resolve.
+
+(* ---- the generative side: what the template emits (coq/Model/TmplRefs.v) ---- *)
+From HI Require Import Model.TmplRefs Proofs.TmplRefs.
+
+(* `emitted_sections st` / `references st` transcribe the conditional structure of
+   haproxy.tmpl and of the frontend / tcp map writers for a model state `st` (hosts,
+   backends, userlists, resolvers, tcp services, auth proxy, global flags). For every state
+   that satisfies the decidable invariants `st_inv` — the HasSSLPassthrough counter agrees
+   with the hosts, the paths of the hosts / the auth proxy binds / the tcp services / the
+   default backend name backends of the model, the userlists, resolvers and auth helper
+   backends named by backends exist, identifiers are distinct — every reference the
+   template writes names a section it writes, and no section is written twice. *)
+Theorem C07_template_refs_closed : forall st : tstate, st_inv st = true ->
+  (forall r, In r (references st) -> In (snd r) (emitted_sections st)) /\ NoDup (emitted_sections st).
+Proof. exact template_refs_closed. Qed.
+Print Assumptions C07_template_refs_closed.
+
+(* composed with C07_wellformed_complete: the reference structure of the generated
+   configuration (sections and references to sections) passes the verified checker *)
+Theorem C07_template_generates_wellformed : forall st : tstate, st_inv st = true ->
+  wellformed (gen_cfg st) = true.
+Proof. exact template_generates_wellformed. Qed.
+Print Assumptions C07_template_generates_wellformed.
+
+(* the first invariant is maintained by the bookkeeping of Hosts: for every sequence of
+   reconciliations — full (Clear) or partial (RemoveAll of any hosts), then any AcquireHost /
+   SetSSLPassthrough / other edits, then Shrink and Commit — the counter is the number of
+   ssl-passthrough hosts of the model, hence HasSSLPassthrough() is exact *)
+Theorem C07_hosts_counter : forall cs : list hcycle,
+  let s := run_cycles cs in
+  NoDup (map fst (hs_items s)) /\ hs_count s = pass_count (hs_items s) /\ hs_add s = [] /\ hs_del s = [].
+Proof. exact hosts_counter. Qed.
+Print Assumptions C07_hosts_counter.
+
+Theorem C07_has_passthrough_exact : forall cs : list hcycle,
+  let s := run_cycles cs in
+  (0 <? hs_count s)%Z = existsb th_pass (map snd (hs_items s)).
+Proof. exact has_passthrough_exact. Qed.
+Print Assumptions C07_has_passthrough_exact.
+
+(* the invariant "the paths of the hosts name backends of the model" cannot be dropped: the
+   state of the known finding (strict-host: the borrowed root backend went away) satisfies
+   all the others and has a dangling map value. C07_template_refs_closed is the _under_H
+   variant, with the hypothesis spelled out in st_inv (inv_hostrefs). *)
+Theorem C07_template_refs_closed_without_host_backends_refuted :
+  exists st : tstate, inv_rest st = true /\
+    ~ (forall r, In r (references st) -> In (snd r) (emitted_sections st)).
+Proof. exact template_refs_closed_without_host_backends_refuted. Qed.
+Print Assumptions C07_template_refs_closed_without_host_backends_refuted.
